@@ -535,6 +535,59 @@ def fingerprint(c, keep=None):
     return repr(c)
 
 
+# ------------------------------------------------------------------ polar caps
+def cap_mesh(pole, places, unit_inv, shift=(0, 0)):
+    """Disjoint 3x3 patches of quads whose central face centre lies `place` units (1 unit = 1/unit_inv rad
+    = 0.01 degree) from the pole, one patch per place, in different directions.  Nodes are the integer
+    directions (x, y, pole * unit_inv) -- the gnomonic lattice at the pole; no element lies strictly between
+    the pole and one unit.  Returns an entry-like dict (nodes, faces, place of each face)."""
+    nodes, faces, fplace = [], [], []
+    for k, r in enumerate(places):
+        phi = math.radians(25.0 + 67.0 * k)
+        cx, cy = int(round(r * math.cos(phi))) + shift[0], int(round(r * math.sin(phi))) + shift[1]
+        if r == 1:
+            cx, cy = 1 + shift[0], 0 + shift[1]
+        base = len(nodes)
+        for j in range(4):
+            for i in range(4):
+                nodes.append([cx + 2 * i - 3, cy + 2 * j - 3, pole * unit_inv])
+        for j in range(3):
+            for i in range(3):
+                a = base + j * 4 + i
+                quad = [a, a + 1, a + 5, a + 4]
+                faces.append(quad if pole > 0 else quad[::-1])  # counter-clockwise seen from outside
+                fplace.append(r)
+    return {"name": "polar_cap_%s" % ("N" if pole > 0 else "S"), "rot": 0, "cut": -1, "nodes": nodes, "faces": faces, "face_place": fplace, "closed": False}
+
+
+def cap_reference(entry, g, kind):
+    """Exact element directions (unit vectors, float) of a cap mesh in the grid's index order, computed
+    from the integer corner directions only: nodes; normalised mean of the corners' unit vectors."""
+    if kind == "nodes":
+        return np.array([lattice.unit(v) for v in entry["nodes"]])
+    if kind == "face centers":
+        return np.array([lattice.centroid_dir([entry["nodes"][i] for i in f]) for f in entry["faces"]])
+    en = np.asarray(g.edge_node_connectivity.values).tolist()
+    return np.array([lattice.centroid_dir([entry["nodes"][a], entry["nodes"][b]]) for a, b in en])
+
+
+def angles_to(ref, qdir):
+    """Great-circle angles (robust atan2 form) from the direction qdir to every row of ref."""
+    u = lattice.unit(qdir)
+    return np.array([lattice.ang_between(u, r) for r in ref])
+
+
+def cap_queries(entry, unit_inv, pole, rng, per_patch=5):
+    """Query directions inside the cap: half-unit lattice points around every patch, the pole itself."""
+    out = [[0, 0, pole]]
+    nf = len(entry["faces"])
+    for p0 in range(0, nf, 9):
+        c = [sum(entry["nodes"][i][k] for i in entry["faces"][p0 + 4]) for k in range(2)]  # 4 x the central face centre
+        for _ in range(per_patch):
+            out.append([2 * c[0] // 4 + rng.randint(-7, 7), 2 * c[1] // 4 + rng.randint(-7, 7), 2 * pole * unit_inv])
+    return out
+
+
 GRID_VARS = [p + "_" + c for p in ("node", "face", "edge") for c in ("lon", "lat", "x", "y", "z")] + ["face_node_connectivity", "edge_node_connectivity"]
 
 
